@@ -95,7 +95,7 @@ def _world_summaries(world):
         return (NumArr(list(world.eig(t))), Tok("eigenvectors"))
     s.update({"scipy.integrate.ode": ode, "integrate.ode": ode, "ode": ode, "np.linalg.eig": eig, "numpy.linalg.eig": eig,
               "scipy.linalg.eig": eig, "np.linalg.eigvals": lambda J: eig(J)[0],
-              "is_list_like": lambda v: isinstance(v, (list, tuple, NumArr)), "str": lambda v: "<str>",
+              "is_list_like": lambda v: isinstance(v, (list, tuple, NumArr)), "str": lambda v: v if isinstance(v, str) else "<str>",
               "InputError": lambda *a: "InputError", "IntegrationError": lambda *a: "IntegrationError"})
     s.pop("max", None)
     s.pop("min", None)
